@@ -24,7 +24,7 @@ import (
 // C10 — recovery may be killed at any instant and repeated without changing the outcome.
 // Level 1 = crash images of a traced C02-style session (sampled per phase, plus the final image). For each, the
 // uninterrupted recovery gives R0; then the recovery itself is traced, every boundary inside Open (plus unlink-order
-// variants) is a level-2 image, and a fresh Open on it must succeed and read exactly R0. Depth 3 on a sample.
+// variants) is a level-2 image, and a fresh Open on it must succeed and read exactly R0, and after a fixed continuation (put k0, delete k1, Close, Open) it must again read exactly what the uninterrupted path reads after the same continuation. Depth 3 on a sample.
 
 func init() {
 	fw.Register(&fw.Prop{
@@ -35,7 +35,7 @@ func init() {
 				n = 60 + 300
 			}
 			return fw.Meta{N: n, Level: "fault_enumeration", Chunk: 1, CaseTimeoutS: 1800, MinNT: 10, Workers: 6,
-				Rule:        "one case = one traced synchronous-WAL session (as in C02); from its distinct crash images up to 24 (quick) / 60 (thorough) level-1 images are drawn per phase bucket (open / close / flush / compaction / operations) plus the final image; a further 20 (quick) / 300 (thorough) cases start from HAND-PLACED kill images (a process that ends without Close): WAL holding only deletes / only puts / both over 1..3 tables, a finished flagged compaction that was never reflected plus a non-empty WAL, and the same with some input files already removed; for each recoverable one: R0 = read-all after an uninterrupted Open+Close; the same recovery is then run under strace on a fresh copy (fidelity: final replayed image == directory left) and after EVERY mutating system call of that Open/Close (plus all subsets of every unlink run of <= 4 files, sampled beyond = other directory listing orders) a level-2 image is materialised; a fresh Open on it must succeed and read exactly R0. In the thorough tier 3 level-2 images per level-1 image are traced again (depth 3). evaluations = level-2/3 images recovered; non-trivial = level-1 image whose recovery performs >= 5 mutations",
+				Rule:        "one case = one traced synchronous-WAL session (as in C02); from its distinct crash images up to 24 (quick) / 60 (thorough) level-1 images are drawn per phase bucket (open / close / flush / compaction / operations) plus the final image; a further 20 (quick) / 300 (thorough) cases start from HAND-PLACED kill images (a process that ends without Close): WAL holding only deletes / only puts / both over 1..3 tables, a finished flagged compaction that was never reflected plus a non-empty WAL, and the same with some input files already removed; for each recoverable one: R0 = read-all after an uninterrupted Open+Close; the same recovery is then run under strace on a fresh copy (fidelity: final replayed image == directory left) and after EVERY mutating system call of that Open/Close (plus all subsets of every unlink run of <= 4 files, sampled beyond = other directory listing orders) a level-2 image is materialised; a fresh Open on it must succeed and read exactly R0, and after a fixed continuation (put k0, delete k1, Close, Open) it must again read exactly what the uninterrupted path reads after the same continuation. In the thorough tier 3 level-2 images per level-1 image are traced again (depth 3). evaluations = level-2/3 images recovered; non-trivial = level-1 image whose recovery performs >= 5 mutations",
 				MinObs:      map[string]int64{"level1_images": 40, "level1_with_wal_replay": 10, "level1_with_pending_compaction": 3, "level2_images_recovered": 2000, "level2_listing_order_variants": 200, "level1_crafted": 15},
 				Assumptions: []string{"kill -9 model as in C02", "level-1 images whose Open fails are C02's findings and are skipped here"},
 			}
@@ -182,7 +182,7 @@ func runC10Crafted(c *fw.Case, j int) {
 	}
 	agg := &c10Agg{verdicts: map[string]string{}, counts: map[string]int{}}
 	label := fmt.Sprintf("hand-placed level-1 image, scenario %d (%s) seed=%d", scenario, []string{"WAL with deletes only", "WAL with puts only", "WAL with puts and deletes", "flagged unreflected compaction + WAL", "flagged compaction, inputs half removed + WAL"}[scenario], seed)
-	m := c10Nested(c, work, dir, keys, out.Reads, agg, 2, lr, label)
+	m := c10Nested(c, work, dir, keys, withCont(out), agg, 2, lr, label)
 	c.Obs("level2_images_recovered", int64(agg.judged))
 	c.Obs("level2_listing_order_variants", int64(agg.variants))
 	var sigs []string
@@ -207,7 +207,7 @@ func copyDir(src, dst string) error {
 }
 
 func runRecover(work, dir string, keys []string) (*e2RecoverOut, fw.SubResult) {
-	res := fw.RunSub("", 120, nil, work, "e2recover", "-dir", dir, "-keys", strings.Join(keys, ","), "-rbuf", "4096", "-wbuf", "64")
+	res := fw.RunSub("", 120, nil, work, "e2recover", "-cont", "-dir", dir, "-keys", strings.Join(keys, ","), "-rbuf", "4096", "-wbuf", "64")
 	var out e2RecoverOut
 	if json.Unmarshal(bytes.TrimSpace(res.Stdout), &out) != nil {
 		return nil, res
@@ -221,7 +221,25 @@ func readsEqual(a, b map[string]*string, keys []string) string {
 			return fmt.Sprintf("key %s reads %s, after the uninterrupted recovery it reads %s", showKey(k), showVal(a[k]), showVal(b[k]))
 		}
 	}
+	// entries "cont:<key>" carry the reads after the fixed continuation (put, delete, close, open)
+	for _, k := range keys {
+		if _, ok := b["cont:"+k]; ok && !sameVal(a["cont:"+k], b["cont:"+k]) {
+			return fmt.Sprintf("after the same continuation (put k0, delete k1, restart) key %s reads %s, on the uninterrupted path it reads %s", showKey(k), showVal(a["cont:"+k]), showVal(b["cont:"+k]))
+		}
+	}
 	return ""
+}
+
+// withCont folds the second read-all into one map ("cont:<key>").
+func withCont(out *e2RecoverOut) map[string]*string {
+	m := map[string]*string{}
+	for k, v := range out.Reads {
+		m[k] = v
+	}
+	for k, v := range out.Reads2 {
+		m["cont:"+k] = v
+	}
+	return m
 }
 
 type c10Agg struct {
@@ -242,6 +260,7 @@ func c10Nested(c *fw.Case, work, src string, keys []string, r0 map[string]*strin
 	}
 	defer os.RemoveAll(run)
 	logName := fmt.Sprintf("rec-d%d.log", depth)
+	// (the traced run has no continuation: its crash points are those of Open + read-all + Close only)
 	logPath, res := e2Trace(work, logName, 120, 300000, "e2recover", "-dir", run, "-keys", strings.Join(keys, ","), "-rbuf", "4096", "-wbuf", "64")
 	defer os.Remove(logPath)
 	if res.TimedOut {
@@ -307,10 +326,10 @@ func c10Nested(c *fw.Case, work, src string, keys []string, r0 map[string]*strin
 					sig, detail = "recovery-crash/recovering-process-died/"+fw.PanicSite(r.Stderr)+tail, fmt.Sprintf("exit %d on %s\n%s", r.Exit, where, cutS(r.Stderr, 600))
 				case out.OpenErr != "":
 					sig, detail = "recovery-crash/open-fails/"+errClass(out.OpenErr, jb.dir)+tail, fmt.Sprintf("Open fails on %s\nerror: %s", where, out.OpenErr)
-				case out.GetErr != "" || out.CloseErr != "":
-					sig, detail = "recovery-crash/read-or-close-fails/"+errClass(out.GetErr+out.CloseErr, jb.dir)+tail, fmt.Sprintf("%s %s on %s", out.GetErr, out.CloseErr, where)
+				case out.GetErr != "" || out.CloseErr != "" || out.ContErr != "":
+					sig, detail = "recovery-crash/read-or-close-fails/"+errClass(out.GetErr+out.CloseErr+out.ContErr, jb.dir)+tail, fmt.Sprintf("%s %s %s on %s", out.GetErr, out.CloseErr, out.ContErr, where)
 				default:
-					if d := readsEqual(out.Reads, r0, keys); d != "" {
+					if d := readsEqual(withCont(out), r0, keys); d != "" {
 						sig, detail = "recovery-crash/outcome-differs-from-uninterrupted-recovery"+tail, fmt.Sprintf("%s on %s", d, where)
 					}
 				}
@@ -561,13 +580,13 @@ func runC10(c *fw.Case) {
 		_ = copyDir(im.dir, cp)
 		out, _ := runRecover(work, cp, keys)
 		_ = os.RemoveAll(cp)
-		if out == nil || out.OpenErr != "" || out.GetErr != "" {
+		if out == nil || out.OpenErr != "" || out.GetErr != "" || out.ContErr != "" {
 			c.Obs("level1_not_recoverable_skipped", 1)
 			_ = os.RemoveAll(im.dir)
 			continue
 		}
 		label := fmt.Sprintf("session seed=%d, level-1 image #%d (phase %s, after %s)", seed, im.seq, im.phase, im.after)
-		m := c10Nested(c, work, im.dir, keys, out.Reads, agg, 2, lr, label)
+		m := c10Nested(c, work, im.dir, keys, withCont(out), agg, 2, lr, label)
 		if m >= 5 {
 			nt++
 		}
